@@ -25,6 +25,59 @@ fn is_empty_result(body: &str) -> bool {
     b == "Ok(TokenStream::new())" || b == "Ok(String::new())" || b == "returnOk(TokenStream::new())" || b == "return Ok(String::new())"
 }
 
+/// C10.empty (templates): a parameterized type assignment is a template — it produces no binding of its own (documented
+/// category) — and *only* that: the dispatchers of both backends are evaluated on a BOOLEAN assignment with and without a
+/// parameter list; the plain one must reach its generator, the template must yield nothing.
+fn template_guard(m: &Model, ctx: &mut Ctx) {
+    use crate::eval::{Env, Evaluator, Val};
+    use std::collections::BTreeMap as Map;
+    let consts = const_resolver(m);
+    for (self_ty, fname, param_is_tld) in [("Rasn", "generate_type", false), ("Typescript", "generate", true)] {
+        let Some(f) = m.fns.iter().find(|f| f.name == fname && f.self_ty.as_deref() == Some(self_ty)) else {
+            ctx.fail_closed("C10.empty", &format!("anchor not found: {}::{}", self_ty, fname));
+            continue;
+        };
+        ctx.func(&f.key);
+        let hook = |_: &Evaluator, name: &str, _a: &[Val]| -> Option<Result<Val, String>> {
+            if name.starts_with(".generate_") {
+                return Some(Ok(Val::Ctor("Ok".into(), vec![Val::Sym(format!("<{}>", &name[1..]))], Map::new())));
+            }
+            match name {
+                "TokenStream::new" | "String::new" => Some(Ok(Val::Sym(String::new()))),
+                _ => None,
+            }
+        };
+        let ev = Evaluator { consts: &consts, call_hook: &hook, inline: None };
+        let param = f.sig.inputs.iter().filter_map(|a| match a { syn::FnArg::Typed(t) => Some(tok(&t.pat)), _ => None }).next().unwrap_or("tld".into());
+        for templ in [false, true] {
+            let key = format!("{}::{}:parameterized={}", self_ty, fname, templ);
+            ctx.oblige("C10.empty", &key, true);
+            let mut t = Map::new();
+            t.insert("name".to_string(), Val::Str("T".into()));
+            t.insert("parameterization".to_string(), if templ { Val::some(Val::Opaque("params".into())) } else { Val::none() });
+            t.insert("ty".to_string(), Val::Ctor("Boolean".into(), vec![Val::Opaque("b".into())], Map::new()));
+            let tld = Val::Ctor("ToplevelTypeDefinition".into(), vec![], t);
+            let arg = if param_is_tld { Val::Ctor("Type".into(), vec![tld], Map::new()) } else { tld };
+            let mut env = Env::new();
+            env.insert("self".into(), Val::ctor(self_ty));
+            env.insert(param.clone(), arg);
+            match ev.eval_fn_body(&f.block, &mut env) {
+                Ok(Val::Ctor(ok, p, _)) if ok == "Ok" => {
+                    let out = p.first().map(|v| match v { Val::Sym(s) | Val::Str(s) => s.clone(), o => o.show() }).unwrap_or_default();
+                    let empty = out.is_empty();
+                    if empty != templ {
+                        ctx.violate("C10.empty", &format!("template-guard:{}", self_ty), &f.file, f.line,
+                            &format!("{}::{} on `T{} ::= BOOLEAN` yields `{}`: {}", self_ty, fname, if templ { " {P}" } else { "" }, out,
+                                if templ { "a parameterized template has no binding of its own" } else { "an ordinary type assignment is generated — here it vanishes without a warning" }));
+                    }
+                }
+                Ok(o) => ctx.fail_closed("C10.empty", &format!("[{}]: {}", key, o.show().chars().take(100).collect::<String>())),
+                Err(e) => ctx.fail_closed("C10.empty", &format!("[{}]: {}", key, e)),
+            }
+        }
+    }
+}
+
 pub fn run(m: &Model, ctx: &mut Ctx) {
     ctx.explanation = "C10.empty: in every generator dispatch (generate_tld, generate_type, generate_value; TypeScript generate) the set of IR variants that reach an arm returning an *empty* output is computed by exhaustive case analysis (guards taken both ways) and must lie within the documented silent categories (classes, objects that are not sets, parameterized templates, object sets under opaque_open_types). \
 C10.key: the key of the definitions map must identify the module as well as the name (a name-only key loses same-named definitions of different modules without a trace). \
@@ -38,6 +91,7 @@ Not decided: that a warning never alters *dependent* definitions' bindings in wa
     let consts = const_resolver(m);
 
     empties(m, ctx, &consts);
+    template_guard(m, ctx);
     key(m, ctx);
     pair(m, ctx, &consts);
     header(m, ctx);
